@@ -163,6 +163,13 @@ def tasks(tier):
     for i in range(0, len(sk), 2):
         chunk = sk[i:i + 2]
         out.append((f"pipeline[{','.join(n for n, _ in chunk)}]", make_task(chunk)))
+    # "batched or not" is part of the quantifier: the bin-wise skeletons are also run with batch size 2 (shared with C10)
+    from . import C10_batching as B
+
+    def batched(T):
+        for nm in ("2c-different-nbins-staterror", "all-seven-types"):
+            B.run_one(T, nm, dict(K.CURATED)[nm], 2)
+    out.append(("batched-variant", batched))
     return out
 
 
@@ -187,7 +194,17 @@ def replay(r):
         except Exception as e:
             return {"reproduced": True, "call": meta["what"], "raises": f"{type(e).__name__}: {e}", "spec": spec}
     from .hf_native import native_compare
-    sk = dict(skel)
-    if isinstance(sk.get("parameters"), str):
-        sk.pop("parameters")
+
+    class NumSym:
+        def __init__(self):
+            self.leaves, self.k = {}, 0
+
+        def __call__(self, name):
+            self.k += 1
+            v = round(0.6 + 0.37 * self.k, 3) if "auxdata" in name else round(1.3 + 0.21 * self.k, 3)
+            if "sigmas" in name:
+                v = round(0.1 + 0.07 * self.k, 3)
+            self.leaves[name] = v
+            return v
+    sk = with_overrides(skel, NumSym())
     return native_compare(sk, what="logpdf")
